@@ -653,3 +653,182 @@ Proof.
   intros H. apply andb_prop in H. destruct H as [H H3]. apply andb_prop in H. destruct H as [H1 H2].
   exists ua, ub. repeat split; auto. apply String.eqb_eq. exact H1.
 Qed.
+
+(* ================================================================ 5. the temperature (affine) kind: absolute error *)
+(* rounding error of one operation, no range hypothesis except "no overflow": relative 2^-53 plus, in the
+   subnormal range, at most half the smallest subnormal *)
+Definition eta : R := / 2 * bpow radix2 (-1074).
+Lemma rnd_err z : Rabs (rnd z - z) <= u53 * Rabs z + eta.
+Proof.
+  destruct (error_N_FLT radix2 (-1074) 53 ltac:(reflexivity) (fun x => negb (Z.even x)) z) as [eps [et [He [Ht [_ E]]]]].
+  unfold rnd. rewrite fexp_eq. change (round_mode mode_NE) with ZnearestE. unfold ZnearestE in *. rewrite E.
+  replace (z * (1 + eps) + et - z) with (z * eps + et) by ring.
+  eapply Rle_trans; [apply Rabs_triang|]. rewrite Rabs_mult.
+  apply Rplus_le_compat; [|exact Ht]. rewrite Rmult_comm. apply Rmult_le_compat_r; [apply Rabs_pos|exact He].
+Qed.
+(* one rounded step on an approximation: xh approximates the ideal x within d, |x| <= M *)
+Definition stp (d M : R) : R := d + u53 * (M + d) + eta.
+Lemma rnd_step xh x d M : Rabs (xh - x) <= d -> Rabs x <= M -> Rabs (rnd xh - x) <= stp d M.
+Proof.
+  intros H1 H2. unfold stp.
+  replace (rnd xh - x) with ((rnd xh - xh) + (xh - x)) by ring.
+  eapply Rle_trans; [apply Rabs_triang|]. pose proof (rnd_err xh) as E.
+  assert (Rabs xh <= M + d).
+  { replace xh with (x + (xh - x)) by ring. eapply Rle_trans; [apply Rabs_triang|]. lra. }
+  pose proof u53_lt1. assert (u53 * Rabs xh <= u53 * (M + d)) by (apply Rmult_le_compat_l; lra). lra.
+Qed.
+
+Lemma u53_val : u53 = / 9007199254740992.
+Proof. unfold u53. simpl bpow. lra. Qed.
+
+(* the constants of the temperature functions as the binary64s the code holds *)
+Definition n273 : num := num_of_bits (l_bits lit_273_15).
+Definition n32 : num := num_of_bits (l_bits lit_32).
+Definition n5 : num := num_of_bits (l_bits lit_5).
+Definition n9 : num := num_of_bits (l_bits lit_9).
+Definition c273 : R := 4805305618032230 / 17592186044416.   (* 273.15000000000003..., the double nearest 273.15 *)
+Lemma n273_val : Rv n273 = c273.
+Proof. unfold Rv, n273, c273. vm_compute num_of_bits. unfold SF2R, F2R. simpl. lra. Qed.
+Lemma n32_val : Rv n32 = 32.
+Proof. unfold Rv, n32. vm_compute num_of_bits. unfold SF2R, F2R. simpl. lra. Qed.
+Lemma n5_val : Rv n5 = 5.
+Proof. unfold Rv, n5. vm_compute num_of_bits. unfold SF2R, F2R. simpl. lra. Qed.
+Lemma n9_val : Rv n9 = 9.
+Proof. unfold Rv, n9. vm_compute num_of_bits. unfold SF2R, F2R. simpl. lra. Qed.
+Lemma isB_n273 : isB n273 c273. Proof. rewrite <- n273_val. apply isB_of_valid; reflexivity. Qed.
+Lemma isB_n32 : isB n32 32. Proof. rewrite <- n32_val. apply isB_of_valid; reflexivity. Qed.
+Lemma isB_n5 : isB n5 5. Proof. rewrite <- n5_val. apply isB_of_valid; reflexivity. Qed.
+Lemma isB_n9 : isB n9 9. Proof. rewrite <- n9_val. apply isB_of_valid; reflexivity. Qed.
+
+(* [apx X i d]: X is a finite binary64 whose value is within d of the ideal real i *)
+Definition apx (X : num) (i d : R) : Prop := exists r, isB X r /\ Rabs (r - i) <= d.
+
+Lemma apx_mag X i d M : apx X i d -> Rabs i <= M -> exists r, isB X r /\ Rabs (r - i) <= d /\ Rabs r <= M + d.
+Proof.
+  intros [r [B H]] Hi. exists r. split; [exact B|]. split; [exact H|].
+  replace r with (i + (r - i)) by ring. eapply Rle_trans; [apply Rabs_triang|]. lra.
+Qed.
+
+Lemma ap_add X i d C cr M : apx X i d -> isB C cr -> Rabs (i + cr) <= M -> M + d <= Tmax ->
+  apx (nadd X C) (i + cr) (stp d M).
+Proof.
+  intros [r [B H]] BC Hi HT. exists (rnd (r + cr)).
+  assert (E : Rabs (r + cr - (i + cr)) <= d) by (replace (r + cr - (i + cr)) with (r - i) by ring; exact H).
+  split; [|apply rnd_step; assumption].
+  apply isB_add; try assumption.
+  replace (r + cr) with ((i + cr) + (r + cr - (i + cr))) by ring. eapply Rle_trans; [apply Rabs_triang|]. lra.
+Qed.
+Lemma ap_sub X i d C cr M : apx X i d -> isB C cr -> Rabs (i - cr) <= M -> M + d <= Tmax ->
+  apx (nsub X C) (i - cr) (stp d M).
+Proof.
+  intros [r [B H]] BC Hi HT. exists (rnd (r - cr)).
+  assert (E : Rabs (r - cr - (i - cr)) <= d) by (replace (r - cr - (i - cr)) with (r - i) by ring; exact H).
+  split; [|apply rnd_step; assumption].
+  apply isB_sub; try assumption.
+  replace (r - cr) with ((i - cr) + (r - cr - (i - cr))) by ring. eapply Rle_trans; [apply Rabs_triang|]. lra.
+Qed.
+Lemma ap_mul X i d C cr M : apx X i d -> isB C cr -> 0 < cr -> Rabs (i * cr) <= M -> M + d * cr <= Tmax ->
+  apx (nmul X C) (i * cr) (stp (d * cr) M).
+Proof.
+  intros [r [B H]] BC Pc Hi HT. exists (rnd (r * cr)).
+  assert (E : Rabs (r * cr - i * cr) <= d * cr).
+  { replace (r * cr - i * cr) with ((r - i) * cr) by ring. rewrite Rabs_mult, (Rabs_pos_eq cr) by lra.
+    apply Rmult_le_compat_r; lra. }
+  split; [|apply rnd_step; assumption].
+  apply isB_mul; try assumption.
+  replace (r * cr) with ((i * cr) + (r * cr - i * cr)) by ring. eapply Rle_trans; [apply Rabs_triang|]. lra.
+Qed.
+Lemma ap_div X i d C cr M : apx X i d -> isB C cr -> 0 < cr -> Rabs (i / cr) <= M -> M + d / cr <= Tmax ->
+  apx (ndiv X C) (i / cr) (stp (d / cr) M).
+Proof.
+  intros [r [B H]] BC Pc Hi HT. exists (rnd (r / cr)).
+  assert (E : Rabs (r / cr - i / cr) <= d / cr).
+  { replace (r / cr - i / cr) with ((r - i) * / cr) by (field; lra).
+    assert (0 < / cr) by (apply Rinv_0_lt_compat; lra).
+    rewrite Rabs_mult, (Rabs_pos_eq (/ cr)) by lra. apply Rmult_le_compat_r; lra. }
+  split; [|apply rnd_step; assumption].
+  apply isB_div; try assumption; [lra|].
+  replace (r / cr) with ((i / cr) + (r / cr - i / cr)) by ring. eapply Rle_trans; [apply Rabs_triang|]. lra.
+Qed.
+
+Lemma eta_small : 0 <= eta <= / 1267650600228229401496703205376.
+Proof.
+  unfold eta. pose proof (bpow_gt_0 radix2 (-1074)).
+  assert (bpow radix2 (-1074) <= bpow radix2 (-100)) by (apply bpow_le; discriminate).
+  simpl (bpow radix2 (-100)) in *. lra.
+Qed.
+
+(* the ideal (real-number) temperature functions, with the offset the code holds *)
+Definition TFid (f : tempfn) (x : R) : R :=
+  match f with
+  | TF_celsius_to_kelvin => x + c273
+  | TF_kelvin_to_celsius => x - c273
+  | TF_fahrenheit_to_kelvin => (x - 32) * 5 / 9 + c273
+  | TF_kelvin_to_fahrenheit => (x - c273) * 9 / 5 + 32
+  | TF_kelvin_to_kelvin => x
+  end.
+(* |x| <= M -> |TFid f x| <= TFM f M *)
+Definition TFM (f : tempfn) (M : R) : R :=
+  match f with
+  | TF_celsius_to_kelvin | TF_kelvin_to_celsius => M + c273
+  | TF_fahrenheit_to_kelvin => (M + 32) * 5 / 9 + c273
+  | TF_kelvin_to_fahrenheit => (M + c273) * 9 / 5 + 32
+  | TF_kelvin_to_kelvin => M
+  end.
+(* error after the function: input within d of an ideal of magnitude <= M, ideal output of magnitude <= Mo *)
+Definition TFd (f : tempfn) (d M Mo : R) : R :=
+  match f with
+  | TF_celsius_to_kelvin | TF_kelvin_to_celsius => stp d Mo
+  | TF_fahrenheit_to_kelvin =>
+      stp (stp (stp (stp d (M + 32) * 5) ((M + 32) * 5) / 9) ((M + 32) * 5 / 9)) Mo
+  | TF_kelvin_to_fahrenheit =>
+      stp (stp (stp (stp d (M + c273) * 9) ((M + c273) * 9) / 5) ((M + c273) * 9 / 5)) Mo
+  | TF_kelvin_to_kelvin => d
+  end.
+
+Ltac absle :=
+  repeat match goal with H : Rabs _ <= _ |- _ => apply Rabs_le_inv in H end;
+  apply Rabs_le; unfold c273 in *; split; lra.
+
+Lemma TFM_ok f x M : Rabs x <= M -> Rabs (TFid f x) <= TFM f M.
+Proof. intros H. destruct f; unfold TFid, TFM; absle. Qed.
+
+Lemma c273_bounds : 273 <= c273 <= 274.
+Proof. unfold c273. lra. Qed.
+
+Lemma tf_spec f X x d M Mo : apx X x d -> Rabs x <= M -> Rabs (TFid f x) <= Mo -> 0 <= d ->
+  Mo + 64 * (M + d) + 16384 <= Tmax ->
+  apx (tempfn_apply fl f X) (TFid f x) (TFd f d M Mo).
+Proof.
+  intros HX Hx Ho Hd HT.
+  pose proof eta_small as He. pose proof c273_bounds as Hc.
+  assert (HM : 0 <= M) by (pose proof (Rabs_pos x); lra).
+  assert (HMo : 0 <= Mo) by (pose proof (Rabs_pos (TFid f x)); lra).
+  destruct f; unfold TFid, TFd in *; cbn [tempfn_apply a_add a_sub a_mul a_div a_lit fl];
+    fold n273 n32 n5 n9.
+  - apply ap_add; auto using isB_n273. lra.
+  - apply ap_sub; auto using isB_n273. lra.
+  - assert (H1 : Rabs (x - 32) <= M + 32) by absle.
+    assert (H2 : Rabs ((x - 32) * 5) <= (M + 32) * 5) by absle.
+    assert (H3 : Rabs ((x - 32) * 5 / 9) <= (M + 32) * 5 / 9) by absle.
+    assert (A1 : apx (nsub X n32) (x - 32) (stp d (M + 32))).
+    { apply ap_sub; auto using isB_n32. lra. }
+    assert (A2 : apx (nmul (nsub X n32) n5) ((x - 32) * 5) (stp (stp d (M + 32) * 5) ((M + 32) * 5))).
+    { apply ap_mul; auto using isB_n5; [lra|]. unfold stp. rewrite u53_val. lra. }
+    assert (A3 : apx (ndiv (nmul (nsub X n32) n5) n9) ((x - 32) * 5 / 9)
+                     (stp (stp (stp d (M + 32) * 5) ((M + 32) * 5) / 9) ((M + 32) * 5 / 9))).
+    { apply ap_div; auto using isB_n9; [lra|]. unfold stp. rewrite u53_val. lra. }
+    apply ap_add; auto using isB_n273. unfold stp. rewrite u53_val. lra.
+  - assert (H1 : Rabs (x - c273) <= M + c273) by absle.
+    assert (H2 : Rabs ((x - c273) * 9) <= (M + c273) * 9) by absle.
+    assert (H3 : Rabs ((x - c273) * 9 / 5) <= (M + c273) * 9 / 5) by absle.
+    assert (A1 : apx (nsub X n273) (x - c273) (stp d (M + c273))).
+    { apply ap_sub; auto using isB_n273. lra. }
+    assert (A2 : apx (nmul (nsub X n273) n9) ((x - c273) * 9) (stp (stp d (M + c273) * 9) ((M + c273) * 9))).
+    { apply ap_mul; auto using isB_n9; [lra|]. unfold stp. rewrite u53_val. lra. }
+    assert (A3 : apx (ndiv (nmul (nsub X n273) n9) n5) ((x - c273) * 9 / 5)
+                     (stp (stp (stp d (M + c273) * 9) ((M + c273) * 9) / 5) ((M + c273) * 9 / 5))).
+    { apply ap_div; auto using isB_n5; [lra|]. unfold stp. rewrite u53_val. lra. }
+    apply ap_add; auto using isB_n32. unfold stp. rewrite u53_val. lra.
+  - exact HX.
+Qed.
